@@ -12,7 +12,8 @@ def lens(lo, hi, extra=None):
 STREAM = ['_ZN4llvm11raw_ostream5writeEPKcm=vf_os_write', '_ZN4llvm11raw_ostream5writeEh=vf_os_putc']
 OBLIGATIONS = [
     dict(name='N2.lexer-step', harness='C19/h_lexer.cpp', entry='harness_lexer', tus=['lib/Ninja/Lexer.cpp'],
-         noinline=[r'Lexer3lexE'], expect_functions=[r'Lexer3lexE'], unwind=10, unwind_is_oracle=True,
+         noinline=[r'Lexer3lexE'], expect_functions=[r'Lexer3lexE'], unwind=4, unwind_is_oracle=True, cxxflags=['-DVF_SM_KEY=2'],   # a shallow bound: the repaired code needs recursion depth 2, the unrepaired one exceeds every bound
+        
          params_quick=lens(0, 4), params_thorough=lens(0, 6), unwind_thorough=14, timeout=900),   # token extents in every lexing mode (same harness as C19-H1)
     dict(name='N1.keywords', harness='C19/h_lexer.cpp', entry='harness_lexer', tus=['lib/Ninja/Lexer.cpp'],
          noinline=[r'Lexer3lexE'], expect_functions=[r'Lexer3lexE'], unwind=10, cxxflags=['-DVF_IDENT=1'],
@@ -27,7 +28,20 @@ OBLIGATIONS = [
 ]
 # N5 (look-up order / lazy rule variables, harness C17/h_lookup.cpp) is built but does not reach a verdict:
 # the real llvm::StringMap probing and std::string code need > 600 s per query even with the binding shape concrete.
+# H5 (a rule variable that refers to itself) is how the defect repaired in /repo 27b9d8a was noticed: a first version of this query reported a failing
+# unwinding assertion whose replay overflowed the stack natively (ASan: stack-overflow in lookupBuildParameterImpl <-> evalString); the crash was then
+# reproduced with the public tool (findings/C19-rule-variable-recursion: `llbuild ninja load-manifest` segfaults on `command = echo $command`).
+# The query itself does NOT reach a verdict - neither on the repaired nor, in its final configuration, on the unrepaired tree (symex explores the
+# look-up recursion with a fan-out of 3 -> 13 -> 75 calls per level because the bytes of the bound value are not constants for it) - so it is not
+# part of any check and the repair is NOT guarded by a solver query; the demo script is the regression test.  See DESIGN.md section 5.
 DISABLED = [
+    dict(name='H5.rule-variable-recursion', harness='C17/h_recur.cpp', entry='harness_recur', stubs=STREAM + ['ManifestLoaderImpl10evalStringEPvN4llvm9StringRefE.*$=stub_evalString',
+             '^_ZStplIcSt11char_traitsIcESaIcEENSt7__cxx1112basic_stringIT_T0_T1_EEOS8_PKS5_$=stub_plus_a', '^_ZStplIcSt11char_traitsIcESaIcEENSt7__cxx1112basic_stringIT_T0_T1_EEOS8_S9_$=stub_plus_b',
+             '^_ZStplIcSt11char_traitsIcESaIcEENSt7__cxx1112basic_stringIT_T0_T1_EEPKS5_OS8_$=stub_plus_c', '^_ZStplIcSt11char_traitsIcESaIcEENSt7__cxx1112basic_stringIT_T0_T1_EERKS8_PKS5_$=stub_plus_d'], byte_copy='loop', copy_unwind=40, shim_includes=['C17/shim'],
+         tus=['lib/llvm/Support/raw_ostream.cpp', 'lib/llvm/Support/StringRef.cpp'], noinline=[r'ManifestLoaderImpl24lookupBuildParameterImpl'], expect_functions=[r'ManifestLoaderImpl24lookupBuildParameterImpl'],
+         stub_virtual=['ManifestLoaderImpl(?!5error)', '^_ZN7llbuild5ninja12ParseActions', 'JobDescriptor', 'ninja7Command'], allow_external=['^_ZTV'], assert_external=['.'],
+         unwind=4, unwind_is_oracle=True, cxxflags=['-DVF_SM_KEY=2'],   # a shallow bound: the repaired code needs recursion depth 2, the unrepaired one exceeds every bound
+         noop_virtual=['HBufD[012]Ev$'], params_quick=[{'VF_VIA': 0}, {'VF_VIA': 1}], timeout=600, cbmc_flags=['--object-bits', '10']),
     dict(name='N5.lookup-order', harness='C17/h_lookup.cpp', entry='harness_lookup', stubs=STREAM + ['ManifestLoaderImpl10evalStringEPvN4llvm9StringRefE.*$=stub_evalString'], byte_copy='loop', copy_unwind=40, shim_includes=['C17/shim'],   # shim: contract model of llvm::StringMap (see the header)
         
          tus=['lib/llvm/Support/raw_ostream.cpp', 'lib/llvm/Support/StringRef.cpp'],
